@@ -169,6 +169,10 @@ impl Wait for YieldingWait {
         }
         loop {
             yield_now();
+            // always look once per yield, also when spins_yield is zero
+            if check(seq, w_pos, wc) {
+                return;
+            }
             for _ in 0..self.spins_yield {
                 if check(seq, w_pos, wc) {
                     return;
